@@ -35,6 +35,21 @@ def keys(rnd, tier):
         cls += rnd.sample(["d-softshadow", "d-arrow", "d-fill-red", "d-text-bold", "d-dash"], 2)
         body = "".join(f'<rect xy="{3 * i} 0" wh="2" class="{c}"/>' for i, c in enumerate(cls))
         out.append(("patterns", f"<svg>{body}</svg>", {"theme": rnd.choice(["default", "dark", "glass"])}))
+    # every family of the style vocabulary, ALL its classes in use at once (any rule list walked in the
+    # iteration order of the set of classes in use shows here), in a shuffled document order
+    fams = {"stroke": stylesc.STROKE_CLASSES, "dash": stylesc.DASH_CLASSES, "text": stylesc.TEXT_CLASSES, "arrow": stylesc.ARROW_CLASSES,
+            "shadow": stylesc.SHADOW_CLASSES,
+            "colour": [pre + c for c in ("red", "teal", "gold", "navy", "none", "black") for pre in ("d-", "d-fill-", "d-text-", "d-text-ol-")
+                       if not (c == "none" and pre.startswith("d-text"))]}
+    allc = [c for f in fams.values() for c in f]
+    sets = [(f, list(cl)) for f, cl in fams.items()] + [("mixed", rnd.sample(allc, 14)) for _ in range(3 if tier == "quick" else 12)] + [("all", allc)]
+    for f, cl in sets:
+        for rep_ in range(1 if tier == "quick" else 3):
+            cl = list(cl)
+            rnd.shuffle(cl)
+            body = "".join((f'<line xy1="{3 * i} 5" xy2="{3 * i + 2} 9" class="{c}"/>' if i % 3 == 2 else f'<rect xy="{3 * i} 0" wh="2" class="{c}" text="t"/>')
+                           for i, c in enumerate(cl))
+            out.append(("vocab-" + f, f"<svg>{body}</svg>", {"theme": rnd.choice(["default", "dark", "glass"])}))
     for seed in (0, 1, 7, 12345678901):
         doc = ('<svg><loop count="5"><rect xy="{{randint(0, 50)}} {{random()}}" wh="{{1 + random()}}" text="{{randint(1, 6)}}"/></loop>'
                '<circle cxy="{{random() * 10}} 3" r="{{randint(1, 3)}}"/></svg>')
